@@ -574,6 +574,29 @@ func GenRx(g *pk.Gen) {
 			}
 			emitRx(g, need, nenv, 512, withStatusBits(g, Packetise(msg, cuts)), "cutmany")
 		}
+		// packetisations with empty (header-only) packets anywhere: before the first packet, between two packets of the
+		// response (in particular directly before a row / parameter package or inside one), after the last
+		for k := 0; k < 12; k++ {
+			var cuts []int
+			for c := 1; c < len(msg); c++ {
+				if g.Rng.Intn(5) == 0 {
+					cuts = append(cuts, c)
+				}
+			}
+			base := Packetise(msg, cuts)
+			var pkts []Pkt
+			for j, p := range base {
+				for g.Rng.Intn(3) == 0 {
+					pkts = append(pkts, Pkt{MsgType: []int{int(tds.TDS_BUF_RESPONSE), int(tds.TDS_BUF_PROTACK), int(tds.TDS_BUF_NORMAL)}[g.Rng.Intn(3)],
+						Status: []int{0, 0, 0x02, 0x08}[g.Rng.Intn(4)], Nr: g.Rng.Intn(256), Window: g.Rng.Intn(3)})
+				}
+				pkts = append(pkts, p)
+				if j == len(base)-1 && g.Rng.Intn(3) == 0 {
+					pkts = append(pkts, Pkt{MsgType: int(tds.TDS_BUF_RESPONSE)})
+				}
+			}
+			emitRx(g, need, nenv, 512, pkts, "cut-ho")
+		}
 		for _, body := range []int{1, 2, 8} {
 			var cuts []int
 			for c := body; c < len(msg); c += body {
